@@ -13,12 +13,13 @@ import (
 )
 
 func rewriteMetadata(p string, stat *types.Stat) error {
-	for key, value := range stat.Xattrs {
-		sysx.LSetxattr(p, key, value, 0)
-	}
-
 	if err := os.Lchown(p, int(stat.Uid), int(stat.Gid)); err != nil {
 		return errors.WithStack(err)
+	}
+
+	// after the chown: changing the owner makes the kernel drop security.capability
+	for key, value := range stat.Xattrs {
+		sysx.LSetxattr(p, key, value, 0)
 	}
 
 	if os.FileMode(stat.Mode)&os.ModeSymlink == 0 {
